@@ -439,6 +439,25 @@ impl LocalPeerService {
         Ok(())
     }
 
+    /// verification hook: public entry to the private local event handler, unchanged behaviour
+    #[cfg(feature = "verif")]
+    pub async fn verif_process_local_event(
+        msg: LocalEvent,
+        remote_key: &Arc<Mutex<Vec<u8>>>,
+        event_sender: &Sender<RemoteEvent>,
+        remote_rooms: &HashSet<Uid>,
+        inbound_query_service: &InboundQueryService,
+    ) -> Result<(), crate::Error> {
+        Self::process_local_event(
+            msg,
+            remote_key,
+            event_sender,
+            remote_rooms,
+            inbound_query_service,
+        )
+        .await
+    }
+
     async fn process_local_event(
         msg: LocalEvent,
         remote_key: &Arc<Mutex<Vec<u8>>>,
